@@ -66,7 +66,8 @@ class GaussianKDE(DensityEstimator):
             if cross_validation:
                 self.h = self.cross_validation_bandwidth_estimator(self.h)
         else:
-            self.h = bandwidth
+            # (a float: a bandwidth given as a narrow numpy integer wraps around in 4 * h)
+            self.h = float(bandwidth)
 
         # define some useful constants
         self.norm = 1.0 / (len(self.sample) * sqrt(2 * pi) * self.h)
